@@ -61,6 +61,7 @@ class Oracle:
         self.rejected_unfetched = set()  # keys rejected by the validator whose refetch failed (19e)
         self.ended = False
         self.probes = world.stats["probes"]
+        self.foreign = {}  # path -> (mtime, bytes) of files created by the user in the cache directory
 
     # ------------------------------------------------------------------ util
     def _v(self, clause, msg, obs):
@@ -74,15 +75,21 @@ class Oracle:
         return self.w.keys[key]["res"]
 
     def _foreign_check(self, obs):
-        pre, post = foreign_entries(obs.pre), foreign_entries(obs.post)
-        created = None
-        if obs.kind == "FOREIGN":
-            created = CACHE_DIR + "/" + obs.op["name"]
-        for p, ent in pre.items():
-            if p not in post:
-                return self._v("18g" if not self.c19 else "19c-foreign", "foreign entry %s was deleted" % p, obs)
-            if post[p] != ent and ent[0] == "f":
-                return self._v("18g" if not self.c19 else "19c-foreign", "foreign file %s was modified" % p, obs)
+        """18g: files the user put into the cache directory (FOREIGN operations) that are not cache files
+        must never be modified or deleted.  Files the cache itself creates (config, temporaries) are its own."""
+        if obs.kind == "FOREIGN" and not obs.crashed:
+            p = CACHE_DIR + "/" + obs.op["name"]
+            ent = obs.post.get(p)
+            if ent is not None and ent[0] == "f" and p not in self.foreign:
+                self.foreign[p] = (ent[3], ent[4])
+            return None
+        for p, (mt, data) in self.foreign.items():
+            ent = obs.post.get(p)
+            clause = "18g" if not self.c19 else "19c-foreign"
+            if ent is None:
+                return self._v(clause, "foreign file %s was deleted" % p, obs)
+            if ent[4] != data or ent[3] != mt:
+                return self._v(clause, "foreign file %s was modified" % p, obs)
         return None
 
     # ----------------------------------------------------------------- entry
